@@ -106,6 +106,12 @@ int main(int argc, char** argv) {
     if (padmode < 3) { long target = ((long)bytes.size() / pagesz + 1) * pagesz + (padmode - 1); long need = target - (long)bytes.size(); if (need >= 0) bytes = emit(m, binary, swap, std::string((size_t)need, 'p'), order.c_str()); }
     std::string how = "valid";
     if (r.chance(3, 4)) { int nmut = r.chance(3, 4) ? 1 : r.range(2, 3); how = ""; for (int i = 0; i < nmut; ++i) { std::string h; bytes = mutate(r, bytes, binary, h); how += (i ? "+" : "") + h; } }
+    // a required integer removed from a segment header of an otherwise valid text file ("C3" -> "C"): must be rejected, not read as 0
+    if (how == "valid" && !binary && r.chance(1, 6)) {
+      std::vector<size_t> cand; size_t ls = 0; int ln = 0;
+      for (size_t q = 0; q <= bytes.size(); ++q) if (q == bytes.size() || bytes[q] == '\n') { if (ln >= 10 && q > ls + 1 && strchr("CLOVJGkdx", bytes[ls]) && isdigit((unsigned char)bytes[ls + 1])) cand.push_back(ls); ls = q + 1; ++ln; }
+      if (!cand.empty()) { size_t at = cand[r.below(cand.size())] + 1, e = at; while (e < bytes.size() && isdigit((unsigned char)bytes[e])) ++e; bytes.erase(at, e - at); how = "missing-integer"; }
+    }
     if (!replay.empty()) { FILE* f = fopen(replay.c_str(), "rb"); bytes.clear(); int ch; while (f && (ch = fgetc(f)) != EOF) bytes += (char)ch; if (f) fclose(f); how = "replay"; }
     if (A.has("--dump-dir")) {     // corpus for the libFuzzer tier: one selector byte + the NL bytes
       std::string out(1, (char)r.below(8)); out += bytes; std::string pth = A.get("--dump-dir", ".") + "/c" + std::to_string(c);
@@ -131,6 +137,7 @@ int main(int argc, char** argv) {
       if (a.rec.lines.size() != b2.rec.lines.size() || a.rec.digest() != b2.rec.digest() || a.rec.n_events != b2.rec.n_events) { bad.push_back(std::string("file-and-string-notifications-differ:") + tag); }
     };
     same(s0, f0, "flags0"); same(s1, f1, "boundsfirst");
+    if (how == "missing-integer") for (int i = 0; i < 4; ++i) if (all[i]->o.kind == 0) { bad.push_back("input-with-a-missing-required-integer-accepted"); if (detail.empty()) detail = nm_[i]; break; }
     // valid unmodified input: completes and reports the generator's model
     int valid_state = 0;
     if (how == "valid") {
